@@ -181,7 +181,38 @@ def check_pairs(y, call, outcome, out, wl, cov):
                     "fewer pairs than requested (%d, %d of %d) without a warning" % (len(a), len(c), nc))
   cov["pairs_checked"] += 1
   cov["pairs_fewer_than_requested"] += int(len(a) < nc or len(c) < nc)
+  check_wrap_pairs(y, (a, b, c, d), call, cov)
   return True
+
+
+def check_wrap_pairs(y, abcd, call, cov):
+  """wrap_pairs: positive pairs first with label +1, then negative pairs with
+  label -1, each pair formed from the caller's rows in (left, right) order."""
+  from metric_learn.constraints import wrap_pairs
+  a, b, c, d = abcd
+  n = len(y)
+  X = np_stream(call["rs"]["seed"], "wrapX").randn(n, 3) + np.arange(n)[:, None]
+  Xc = X.copy()
+  try:
+    pairs, yp = wrap_pairs(X, (a, b, c, d))
+  except Exception as e:
+    raise Violation("wrap_pairs", "raises", "wrap_pairs raised %s: %s" % (type(e).__name__, e))
+  if not np.array_equal(X, Xc):
+    raise Violation("wrap_pairs", "X_modified", "wrap_pairs modified X")
+  m = len(a) + len(c)
+  pairs = np.asarray(pairs)
+  yp = np.asarray(yp)
+  if pairs.shape != (m, 2, 3) or yp.shape != (m,):
+    raise Violation("wrap_pairs", "shape", "pairs %s labels %s for %d+%d constraints"
+                    % (pairs.shape, yp.shape, len(a), len(c)))
+  exp = np.concatenate([np.stack([X[a], X[b]], axis=1).reshape(-1, 2, 3),
+                        np.stack([X[c], X[d]], axis=1).reshape(-1, 2, 3)])
+  if not np.array_equal(pairs, exp):
+    raise Violation("wrap_pairs", "points", "wrap_pairs does not form (X[a], X[b]) then (X[c], X[d])")
+  if not np.array_equal(yp, np.concatenate([np.ones(len(a)), -np.ones(len(c))])):
+    raise Violation("wrap_pairs", "labels", "labels are not +1 for positive and -1 for negative pairs: %r"
+                    % yp.tolist()[:10])
+  cov["wrap_pairs_checked"] += 1
 
 
 def check_chunks(y, call, outcome, out, wl, cov):
